@@ -22,6 +22,10 @@ var c06Forward = probe.Define("C06", "forward", func(t *rapid.T) protIn {
 	return in
 },
 	func(in protIn) probe.Outcome {
+		if model.ChainSize(in.Msg.Payloads) > maxInnerChain {
+			// the protected form would not fit the 16-bit payload length: outside the domain (a generator slip, not the library's)
+			return probe.OK(false, "outside-domain:inner-chain-too-long")
+		}
 		sa, err := bridge.NewSA(in.Suite, in.Keys)
 		if err != nil {
 			return probe.Fail("%v", err)
